@@ -104,6 +104,38 @@ Fixpoint collect (f : frag) (local acc : list name) : list name :=
 (* used_domains - defined_domains (defined_domains is never filled in the code: always empty) *)
 Definition missing_set (f : frag) : list name := collect (prop_down [] f) [] [].
 
+(* DomainRenamer(domain_map)(elaboratable): every domain name occurring in the subtree (statement domains,
+   ClockSignal/ResetSignal, memory ports, declared ClockDomains) is mapped once through domain_map *)
+Fixpoint rn (m : list (name * name)) (d : name) : name :=
+  match m with [] => d | (s, t) :: r => if name_eqb d s then t else rn r d end.
+Fixpoint rename_frag (m : list (name * name)) (f : frag) : frag :=
+  match f with
+  | Frag pre doms used subs => Frag (map (rn m) pre) (map (rn m) doms) (map (rn m) used) (map (rename_frag m) subs)
+  end.
+
+(* Order in which the IO ports of a design are first met (Design._collect_used_signals walks a fragment's
+   subfragments in order; Module.elaborate adds the NAMED submodules first, then the anonymous ones;
+   Design._add_io_ports appends them to the ports in that order).  A design as a tree of submodules:
+   KIo n = an (anonymous) IOBufferInstance on an IOPort named n; KSub named kids = any other submodule. *)
+Inductive kid := KIo (n : name) | KSub (named : bool) (kids : list kid).
+Definition kid_named (k : kid) : bool := match k with KIo _ => false | KSub b _ => b end.
+Fixpoint io_kid (k : kid) : list name :=
+  match k with
+  | KIo n => [n]
+  | KSub _ ks =>
+    (fix go (l : list kid) (want : bool) : list name :=
+       match l with
+       | [] => []
+       | x :: r => (if Bool.eqb (kid_named x) want then io_kid x else []) ++ go r want
+       end) ks true
+    ++
+    (fix go (l : list kid) (want : bool) : list name :=
+       match l with
+       | [] => []
+       | x :: r => (if Bool.eqb (kid_named x) want then io_kid x else []) ++ go r want
+       end) ks false
+  end.
+
 (* _create_missing_domains with the default missing_domain callback (ClockDomain(name)):
    `iter` is the order in which the set is visited *)
 Definition created (iter : list name -> list name) (s : list name) : list name :=
@@ -287,6 +319,33 @@ Definition extract (d : dir) (fs : files) : dir :=
   fold_left (fun d f => dwrite (fst f) (content_bytes (snd f)) d) fs d.
 Definition plan_dir (fs : files) : dir := map (fun f => (fst f, content_bytes (snd f))) fs.
 
+(* add_file in full: `assert ... filename not in self.files`, then ValueError for a path that is absolute
+   for PurePosixPath (leading "/") or PureWindowsPath (ntpath.splitroot: ANY one character, ":", then "/" or
+   "\\"; names starting with a backslash — UNC paths — are not modelled) *)
+Definition is_abs (k : name) : bool :=
+  match k with
+  | 47 :: _ => true
+  | _ :: 58 :: sep :: _ => (sep =? 47) || (sep =? 92)
+  | _ => false
+  end.
+Inductive fres := FOk (fs : files) | FAssert | FValue.
+Definition add_file_checked (fs : files) (k : name) (c : content) : fres :=
+  if mem k (map fst fs) then FAssert else if is_abs k then FValue else FOk (fs ++ [(k, c)]).
+
+(* extract() in full: `assert not filename.is_absolute() and ".." not in filename.parts` before each file
+   (files before the offending one are already written); parts = the name split at "/" *)
+Fixpoint split_at (sep : Z) (cur : name) (k : name) : list name :=
+  match k with
+  | [] => [rev cur]
+  | c :: r => if c =? sep then rev cur :: split_at sep [] r else split_at sep (c :: cur) r
+  end.
+Definition has_dotdot (k : name) : bool := existsb (fun p => name_eqb p [46; 46]) (split_at 47 [] k).
+Fixpoint extract_checked (d : dir) (fs : files) : option dir :=
+  match fs with
+  | [] => Some d
+  | (k, c) :: r => if is_abs k || has_dotdot k then None else extract_checked (dwrite k (content_bytes c) d) r
+  end.
+
 (* ------------------------------------------------------------------ (4) Simulator.reset() *)
 (* per-slot state; *_wakers is the number of registered waker closures (never touched by reset) *)
 Record sigslot := mkSig { sg_init : Z; sg_curr : Z; sg_next : Z; sg_wakers : Z }.
@@ -348,8 +407,8 @@ Definition fresh (e : engine) : engine :=
    time stamps only) and the waker lists of the slots (stale closures switch themselves off). *)
 Definition obs_slot (s : slot) : list Z * list Z * list (Z * Z) :=
   match s with
-  | SSig g => ([sg_init g; sg_curr g; sg_next g], [], [])
-  | SMem m => (mm_init m, mm_data m, mm_wq m)
+  | SSig g => ([0; sg_init g; sg_curr g; sg_next g], [], [])
+  | SMem m => (1 :: mm_init m, mm_data m, mm_wq m)
   end.
 Record observation := mkObs {
   o_slots : list (list Z * list Z * list (Z * Z)); o_pending : list Z; o_now : Z; o_wakers : list (Z * Z);
@@ -375,3 +434,35 @@ Fixpoint stops (fuel : nat) (ws : list Z) : list Z :=
   end.
 (* deadlines after the first step_design(): the fresh ones plus one per (stale trigger, interval) *)
 Definition rearm (now : Z) (stale : list Z) (ws : list Z) : list Z := ws ++ map (fun i => now + i) stale.
+
+(* A concrete step function for the rerun theorem: _PyEngineState.commit (every pending signal takes its
+   next value, every pending memory applies its write queue) followed by _PyTimeline.advance (time moves to
+   the nearest deadline, whose wakers are removed).  The process bodies between two commits are compiled
+   user code (the subject of C08's Engine model) and are not part of this instance. *)
+Fixpoint write_row (a : nat) (v : Z) (data : list Z) : list Z :=
+  match data, a with
+  | [], _ => []
+  | _ :: r, O => v :: r
+  | x :: r, S a' => x :: write_row a' v r
+  end.
+Definition apply_wq (wq : list (Z * Z)) (data : list Z) : list Z :=
+  fold_left (fun d w => write_row (Z.to_nat (fst w)) (snd w) d) wq data.
+Definition commit_slot (s : slot) : slot :=
+  match s with
+  | SSig g => SSig (mkSig (sg_init g) (sg_next g) (sg_next g) (sg_wakers g))
+  | SMem m => SMem (mkMem (mm_init m) (apply_wq (mm_wq m) (mm_data m)) [] (mm_wakers m))
+  end.
+Fixpoint commit_from (i : Z) (pend : list Z) (ss : list slot) : list slot :=
+  match ss with
+  | [] => []
+  | s :: r => (if existsb (Z.eqb i) pend then commit_slot s else s) :: commit_from (i + 1) pend r
+  end.
+Definition step_commit_advance (e : engine) : engine :=
+  let slots := commit_from 0 (e_pending e) (e_slots e) in
+  match nearest (map snd (e_wakers e)) with
+  | None => mkEng slots [] (e_now e) (e_wakers e) (e_procs e) (e_tbs e) (e_delta e + 1) (e_active e) (e_running e)
+  | Some d => mkEng slots [] d (filter (fun w => negb (snd w =? d)) (e_wakers e)) (e_procs e) (e_tbs e)
+                    (e_delta e + 1) (e_active e) (e_running e)
+  end.
+Definition out_values (e : engine) : list Z :=
+  e_now e :: flat_map (fun s => match s with SSig g => [sg_curr g] | SMem m => mm_data m end) (e_slots e).
